@@ -60,7 +60,25 @@ func runC06(e *Engine, r *Report) {
 			reqBool("hasCommittedEntryAtCurrentTerm() is true", e.callV(hasCommitted), true),
 			reqBool("requester is not a witness", witnessLookup, false))
 		// the recorded index is the commit index
-		okIdx := len(s.Common().Args) >= 2 && fieldV(committedF)(s.Common().Args[1])
+		// (the argument that ends up in readStatus.index, wherever it sits in the parameter list)
+		okIdx := false
+		rsIndex := e.Field("internal/raft", "readStatus", "index")
+		forEachInstr(addReq, func(in ssa.Instruction) {
+			st, isS := in.(*ssa.Store)
+			if !isS {
+				return
+			}
+			if f, _, isF := fieldOfAddr(st.Addr); !isF || f != rsIndex {
+				return
+			}
+			if p, isP := st.Val.(*ssa.Parameter); isP {
+				for pi, q := range addReq.Params {
+					if q == p && pi < len(s.Common().Args) && fieldV(committedF)(s.Common().Args[pi]) {
+						okIdx = true
+					}
+				}
+			}
+		})
 		r.check(okIdx, "GD-readindex-accept", key+" records entryLog.committed", e.ipos(s),
 			"the recorded read index is the current commit index", "the recorded read index is not entryLog.committed")
 		// only from the leader's ReadIndex cell
